@@ -228,3 +228,18 @@ Proof.
   induction l as [|o t IH]; intros hit key; simpl; [lia|].
   destruct (Z.eqb o key); [|lia]. destruct hit as [|h]; [lia|]. specialize (IH h key). lia.
 Qed.
+
+(* ---- g_type_info_get_param_type against the layout of the type blobs (Gen/BlobLayout.v, from gitypelib-internal.h) *)
+From GIV.Gen Require Import BlobLayout.
+Lemma param_type_offset : forall base n : Z,
+  let sz := Z.of_N (snd ParamTypeBlob__type_at) in
+  acc_g_type_info_get_param_type base (Z.of_N ParamTypeBlob_size) sz n
+    = base + Z.of_N (fst ParamTypeBlob__type_at) + n * sz /\
+  acc_g_type_info_get_param_type base (Z.of_N ParamTypeBlob_size) sz 0
+    = base + Z.of_N (fst ArrayTypeBlob__type_at) /\
+  snd ArrayTypeBlob__type_at = snd ParamTypeBlob__type_at.
+Proof.
+  intros base n. cbv zeta. unfold acc_g_type_info_get_param_type.
+  unfold ParamTypeBlob_size, ParamTypeBlob__type_at, ArrayTypeBlob__type_at. cbn [fst snd Z.of_N].
+  repeat split; lia.
+Qed.
